@@ -83,6 +83,15 @@ def step_compare(run, d, world, op, hist):
                 run.fail('pairs listed in the conflict message of %r' % (op,), listed, want, hist + [line, rq], {'message': res[1]})
     if got != ans:
         run.fail('after %r' % (op,), got, ans, hist + [line], {'state before': before})
+    no, npr = len(d.objects), len(d.properties)
+    shape = tuple(d.shape)
+    if shape != (no, npr):
+        run.fail('shape after %r' % (op,), shape, (no, npr), hist + [line])
+    if no * npr:
+        fr = d.fill_ratio
+        true_cells = sum(sum(1 for b in row if b) for row in d.bools)
+        if fr.numerator * no * npr != true_cells * fr.denominator:
+            run.fail('fill_ratio after %r' % (op,), str(fr), '%d/%d' % (true_cells, no * npr), hist + [line])
     return after
 
 
